@@ -56,6 +56,37 @@ probe_pair!(SubAssignYes, SubAssignNo, op_subassign, (q: T), [SubAssign<T>], |p|
     p
 });
 
-pub const PROBE_OPS: &[&str] = &["mul", "mulassign", "neg", "add", "sub", "addassign", "subassign"];
+// by-REFERENCE operands (`&p + &q`, `&p - &q`, `&p * s`, `-&p`): separate impls in Rust, so separately probed
+macro_rules! ref_probe_pair {
+    ($yes:ident, $no:ident, $m:ident, ($($arg:ident : $aty:ty),*), [$($bound:tt)*], |$p:ident| $body:expr) => {
+        pub trait $yes<T> {
+            fn $m(&self, p: T $(, $arg: $aty)*, show: &dyn Fn(&T) -> String) -> Option<String>;
+        }
+        impl<T> $yes<T> for Probe<T>
+        where
+            $($bound)*
+        {
+            fn $m(&self, $p: T $(, $arg: $aty)*, show: &dyn Fn(&T) -> String) -> Option<String> {
+                let r: T = $body;
+                Some(show(&r))
+            }
+        }
+        pub trait $no<T> {
+            fn $m(&self, p: T $(, $arg: $aty)*, show: &dyn Fn(&T) -> String) -> Option<String>;
+        }
+        impl<T> $no<T> for &Probe<T> {
+            fn $m(&self, _p: T $(, $arg: $aty)*, _show: &dyn Fn(&T) -> String) -> Option<String> {
+                $(let _ = $arg;)*
+                None
+            }
+        }
+    };
+}
+ref_probe_pair!(RefAddYes, RefAddNo, op_refadd, (q: T), [for<'a> &'a T: Add<&'a T, Output = T>], |p| &p + &q);
+ref_probe_pair!(RefSubYes, RefSubNo, op_refsub, (q: T), [for<'a> &'a T: Sub<&'a T, Output = T>], |p| &p - &q);
+ref_probe_pair!(RefMulYes, RefMulNo, op_refmul, (s: f64), [for<'a> &'a T: Mul<f64, Output = T>], |p| &p * s);
+ref_probe_pair!(RefNegYes, RefNegNo, op_refneg, (), [for<'a> &'a T: Neg<Output = T>], |p| -&p);
+
+pub const PROBE_OPS: &[&str] = &["mul", "mulassign", "neg", "add", "sub", "addassign", "subassign", "refadd", "refsub", "refmul", "refneg"];
 /// operators probed on the containers `Segment<T>` and `Piecewise<T>` (C15: "every piece type for which the operator exists")
 pub const PROBE_PW_OPS: &[&str] = &["mul", "mulassign", "neg"];
